@@ -265,6 +265,53 @@ static void input_functions_case(CaseCtx& c, int T)
     c.obs.top.obj("sig", sig);
 }
 
+// Independent solver objects, each restricted to one thread, driven concurrently by application threads (an ensemble run):
+// nothing in the library may be shared between objects (function-local statics, global scratch, unsynchronised counters).
+static void ensemble_case(CaseCtx& c, int T)
+{
+    Rng& rng = c.rng;
+    const int E = rng.pick({2, 3, 4});
+    std::vector<SolverConfig> cfgs(E);
+    for (auto& cfg : cfgs) {
+        cfg.ps = random_solver_problem(rng, true, true);
+        cfg.R0 = rng.pick({1e-5, 1e-3});
+        cfg.nr_exp = rng.pick({3, 4});
+        cfg.ntheta_exp = -1;
+        cfg.dirbc = rng.coin();
+        cfg.strategy = rng.range(0, 1);
+        if (cfg.strategy == 1) {
+            cfg.cache_prof = rng.coin();
+            cfg.cache_geo = rng.coin();
+        }
+        cfg.extrapolation = rng.range(0, 3);
+        cfg.cycle = rng.range(0, 2);
+        cfg.fmg = rng.coin(0.5);
+        cfg.fmg_iters = rng.range(0, 2);
+        cfg.maxIterations = rng.range(2, 4);
+        cfg.norm = rng.range(0, 2);
+        cfg.threads = 1;
+        cfg.with_exact = rng.coin();
+    }
+    cfgs[0].describe(c.obs.params);
+    c.obs.params.str("kind", "ensemble").i("T", T).i("objects", E);
+    c.announce("ensemble/E" + std::to_string(E));
+    std::vector<int> its(E, -1);
+    omp_set_num_threads(E);
+#pragma omp parallel for num_threads(E) schedule(static, 1)
+    for (int e = 0; e < E; e++) {
+        auto g = cfgs[e].make_api();
+        g->setup();
+        g->solve();
+        g->setup();
+        g->solve();
+        its[e] = g->numberOfIterations();
+    }
+    JObj sig;
+    sig.str("kind", "ensemble").i("objects", E).str("strategy0", cfgs[0].strategy ? "give" : "take").i("extrap0", cfgs[0].extrapolation);
+    c.obs.top.obj("sig", sig);
+    c.obs.info.i("iterations", its[0]);
+}
+
 static void run_case(CaseCtx& c)
 {
     // one report file per case: <dir>/case<index>.<pid>
@@ -278,6 +325,8 @@ static void run_case(CaseCtx& c)
     c.obs.info.i("pid", (long long)getpid());
     if (c.index % 20 == 19)
         input_functions_case(c, T);
+    else if (c.index % 20 == 9)
+        ensemble_case(c, T);
     else if (c.index % 3 == 2)
         solver_case(c, T);
     else
